@@ -48,7 +48,9 @@ func init() {
 			return 40 * time.Minute
 		},
 		Check: func(r *core.Result, t core.Tier) {
-			for k, min := range map[string]int64{"calls_after_adversarial_predecessor": 1000, "override_then_plain_pairs": 100, "retained_slow_path_tokens": 2000, "retained_error_texts": 1000, "retained_rechecks": 3, "twin_comparisons": 1000, "fresh_process_samples": 10, "same_pooled_object_reused": 100} {
+			// same_pooled_object_reused is reported but not required: whether validators are pooled is
+			// an implementation choice, not part of the property
+			for k, min := range map[string]int64{"calls_after_adversarial_predecessor": 1000, "override_then_plain_pairs": 100, "retained_slow_path_tokens": 2000, "retained_error_texts": 1000, "retained_rechecks": 3, "twin_comparisons": 1000, "fresh_process_samples": 10} {
 				if r.Counters[k] < min {
 					r.Inconc(fmt.Sprintf("under-observed: %s=%d (minimum %d)", k, r.Counters[k], min))
 				}
